@@ -44,8 +44,10 @@ type ecase struct {
 	Policy   ref.Policy  `json:"policy"`
 	MustFail bool        `json:"must_fail"`
 	MustPass bool        `json:"must_pass"`
-	Log      []byte      `json:"log,omitempty"` // event log to parse (nil: the repository's sample log)
-	Twin     *world.Case `json:"-"`             // the unbroken case of the same world
+	Log      []byte      `json:"log,omitempty"`    // event log to parse (nil: the repository's sample log)
+	NoLog    int         `json:"no_log,omitempty"` // 1: a nil event log, 2: an empty one
+	Loader   int         `json:"loader,omitempty"` // 0: GRUB, 1: extract.UnsupportedLoader
+	Twin     *world.Case `json:"-"`                // the unbroken case of the same world
 }
 
 // refReplay replays the sample event log with an own extend loop over upstream's event parser:
@@ -100,7 +102,11 @@ func ccelProblemWith(c *ecase, measured [4]bool, regs [4][]byte, shared *verify.
 		vo = shared
 	}
 	log := ccelData
-	if c.Log != nil {
+	if c.NoLog == 1 {
+		log, measured = nil, [4]bool{}
+	} else if c.NoLog == 2 {
+		log, measured = []byte{}, [4]bool{}
+	} else if c.Log != nil {
 		log = c.Log
 		var err error
 		if measured, regs, err = refReplayOf(log); err != nil {
@@ -116,7 +122,7 @@ func ccelProblemWith(c *ecase, measured [4]bool, regs [4][]byte, shared *verify.
 	var err error
 	var stNil bool
 	pv, st := mon.Guard(func() {
-		s, e := rtmr.ParseCcelWithTdQuote(log, ccelTable, anyq, &rtmr.ParseTdxCcelOpts{Validation: po, Verification: vo, ExtractOpt: extract.Opts{Loader: extract.GRUB}})
+		s, e := rtmr.ParseCcelWithTdQuote(log, ccelTable, anyq, &rtmr.ParseTdxCcelOpts{Validation: po, Verification: vo, ExtractOpt: extract.Opts{Loader: []extract.Bootloader{extract.GRUB, extract.UnsupportedLoader}[c.Loader]}})
 		err, stNil = e, s == nil
 	})
 	if pv != "" {
@@ -418,6 +424,31 @@ func c18(x *mon.Ctx) {
 			}
 		}
 	}
+	// the same failing quotes / unmet policies with NO event log at all (nil, empty), under both loaders: an empty log has nothing
+	// to replay, but the two gates stand in front of whatever is returned
+	{
+		var extra []*ecase
+		k := 0
+		for _, c := range cases {
+			if !c.MustFail || c.Log != nil || !(strings.HasPrefix(c.V.Class, "verify-fault") || strings.HasPrefix(c.V.Class, "policy-mismatch")) {
+				continue // (a quote whose RTMRs contradict the log is not contradicted by no log)
+			}
+			k++
+			if k%x.Pick(5, 1) != 0 {
+				continue
+			}
+			for _, nl := range []int{1, 2} {
+				for _, ld := range []int{0, 1} {
+					e := *c
+					v := *c.V
+					v.Class, v.Param = "no-event-log/"+c.V.Class, fmt.Sprintf("%s/log=%s/loader=%s", c.V.Param, []string{"", "nil", "empty"}[nl], []string{"grub", "unsupported"}[ld])
+					e.V, e.NoLog, e.Loader = &v, nl, ld
+					extra = append(extra, &e)
+				}
+			}
+		}
+		cases = append(cases, extra...)
+	}
 	x.Each(len(cases), func(i int) {
 		c := cases[i]
 		x.Crumb(i, "ccel", c)
@@ -635,6 +666,9 @@ func c18(x *mon.Ctx) {
 	x.Require("twin", 3, 0, 3)
 	x.Require("extended-log/twin", 3, 0, 3)
 	x.Require("default-opts-independent", 0, 0, 1)
+	x.Require("no-event-log/verify-fault", 0, 40, 40)
+	x.Require("no-event-log/policy-mismatch", 0, 12, 12)
+	x.Require("default-opts-nonce-buffer-reused", 1, 3, 5)
 	x.Require("extended-log/rtmr3-bitflip", 0, 3*48, 3*48)
 	x.Require("verify-fault", 0, 75, 75)
 	x.Require("policy-mismatch", 0, 30, 30)
